@@ -6,19 +6,19 @@ VERIF = os.path.dirname(os.path.dirname(os.path.abspath(__file__)))
 
 P = {
  "C01": ("O2 reference machine (pickletools.dis semantics) over every returned pickle; CPython dis differential",
-         "Every pickle of the safe configuration matrix (128 mutator subsets x 6 protocols enumerated; ranges, rates, opt-in flags, both entropy modes drawn), every opcode-choice sequence up to a fixed depth (fuzzer-bytes steering) and 45k+ opcode pickles is executed on an independent flat reference machine; a sample plus every flagged pickle is re-judged by CPython pickletools.dis. Exploration is the right level: the property is a universal statement over an unbounded input/config space whose failures need specific opcode interleavings, which a monitor over many real executions reaches and a finite run cannot prove.",
+         "Every pickle of the safe configuration matrix (128 mutator subsets x 6 protocols enumerated; ranges, rates, opt-in flags, both entropy modes drawn), every opcode-choice sequence up to a fixed depth (fuzzer-bytes steering) 45k+ opcode pickles, recipe-steered alias-heavy pickles, a deep-state block (one opcode chosen greedily for 4 200..20 500 steps: thousands of pending MARKs / stack entries / memo entries when the collapse tail starts), generators reused after earlier pickles (five hand-over styles incl. public-field writes) and files written by the built CLI (single and batch mode) are executed on an independent flat reference machine; a sample plus every flagged pickle is re-judged by CPython pickletools.dis. Exploration is the right level: the property is a universal statement over an unbounded input/config space whose failures need specific opcode interleavings, which a monitor over many real executions reaches and a finite run cannot prove.",
          "5.C01"),
  "C02": ("O2 memo model over returned pickles incl. >256-entry memos; CPython dis differential",
-         "Memo rules (GET defined, PUT fresh, no PUT on MARK/empty) are replayed on every output of the safe matrix plus long 3000..6000-opcode pickles with OffByOne/MemoIndex(safe) at rate 1.0/0.5, so that memos exceed 256 entries and mutated indices miss; evidence counts GET/PUT executions, >256-entry pickles and BINPUTs issued past entry 256.",
+         "Memo rules (GET defined, PUT fresh, no PUT on MARK/empty) are replayed on every output of the safe matrix plus long 3000..6000-opcode pickles with OffByOne/MemoIndex(safe) at rate 1.0/0.5, so that memos exceed 256 entries and mutated indices miss, plus the deep-state block (up to 20 500 memo entries, thorough 70 000), reused generators and CLI-produced files; evidence counts GET/PUT executions, >256-entry pickles and BINPUTs issued past entry 256.",
          "5.C02"),
  "C03": ("kind-tracking reference machine on executed opcodes + precondition check of every offered opcode, confirmed by steering",
-         "Typed opcodes are checked where executed (returned bytes on O2 with kinds) and where merely offered (hook Choice events against the reference state; an offered-but-illegal opcode is steered to and must then fail on the real output before it counts). Workloads: safe matrix, exhaustive decision-tree prefixes, abstract-state BFS.",
+         "Typed opcodes are checked where executed (returned bytes on O2 with kinds) and where merely offered (hook Choice events against the reference state; an offered-but-illegal opcode is steered to and must then fail on the real output before it counts). Workloads: safe matrix, exhaustive decision-tree prefixes, abstract-state BFS, 46 object-heavy recipes, 5000+ opcode pickles, deep-state block.",
          "5.C03"),
  "C04": ("O1 opcode-table lexer with CPython reader semantics + domain checks on every output incl. unsafe mode; genops differential",
-         "Every output of the full matrix (unsafe mutations, type confusion, all 128 subsets, EXT/buffer on) must lex completely under the CPython table with each argument in its domain, exactly one STOP, nothing after it.",
+         "Every output of the full matrix (unsafe mutations, type confusion, all 128 subsets, EXT/buffer on) must lex completely under the CPython table with each argument in its domain, exactly one STOP, nothing after it; the deep-state block and CLI-produced files (single and batch mode, unsafe flags) are lexed too.",
          "5.C04"),
  "C05": ("O1 lexer + introduced-in-protocol column over every opcode occurrence",
-         "Every opcode occurrence (body and collapse tail) of safe-matrix outputs is compared with the protocol column of the CPython table; PROTO presence/uniqueness/argument and 7-bit cleanliness of protocol 0 are checked on the bytes.",
+         "Every opcode occurrence (body and collapse tail) of safe-matrix outputs is compared with the protocol column of the CPython table; PROTO presence/uniqueness/argument and 7-bit cleanliness of protocol 0 are checked on the bytes; includes long and deep-state pickles of every protocol, generators that earlier ran under another protocol, and CLI-produced files.",
          "5.C05"),
  "C06": ("O1 lexer positions/arguments of FRAME on final bytes (library outputs incl. post-emission rewrites, reused generators, files written by the CLI over older files)",
          "FRAME count, offset and length are re-derived from the final bytes for the full matrix incl. unsafe TypeConfusion at rate 1 (rewrites after emission), with evidence of how many framed outputs and rewrites were seen.",
@@ -30,22 +30,22 @@ P = {
          "Every history of length <= 3 over {generate, generate_from_arbitrary(x0|x1), reset} and sampled longer ones, on configurations of all protocols; every generation call is compared byte-for-byte with a fresh generator given only that call; the Python PickleMutator.mutate path is exercised against the built extension.",
          "5.C08"),
  "C09": ("catch_unwind + Err/empty monitor + hook step bound + per-call CPU work bound + child-process exit status over exhaustive short inputs, periodic inputs and hostile configs",
-         "All 65 793 byte strings of length <= 2 x 6 protocols x a configuration set (exhaustive sub-space), every two-byte pattern repeated to 1000 bytes at 400 opcodes, the full matrix with NaN/out-of-range rates, and child-process cases (20k+ opcodes, TUPLE1 chains on a 2 MiB stack, 8 KiB inputs, hostile buffer sizes). 'Never loops forever' is decided as a bound on emitted opcodes and on the CPU time consumed by the generating thread (>= 60x the slowest generation observed); a wall-clock watchdog firing is inconclusive. Thorough adds ASan, valgrind memcheck and a debug-build run.",
+         "All 65 793 byte strings of length <= 2 x 6 protocols x a configuration set (exhaustive sub-space), every two-byte pattern repeated to 1000 bytes at 400 opcodes, the full matrix with NaN/out-of-range rates, and child-process cases (20k+ opcodes, TUPLE1 chains on a 2 MiB stack, 8 KiB inputs, hostile buffer sizes), and the deep-state block (each of MARK, DUP, pushes, memo writers, APPEND, TUPLE.. chosen greedily for 4 200 and 20 500 steps per protocol). 'Never loops forever' is decided as a bound on emitted opcodes and on the CPU time consumed by the generating thread (>= 60x the slowest generation observed); a wall-clock watchdog firing is inconclusive. Thorough adds ASan, valgrind memcheck and a debug-build run.",
          "5.C09"),
  "C10": ("O1 opcode histogram by decoded position under the four flag combinations (library, CLI flags, action-wrapper switches), with positive control",
          "EXT*/buffer opcodes are looked for at decoded opcode positions (never raw bytes) in outputs of the full matrix incl. unsafe for all four flag combinations; the run is inconclusive unless the opcodes do occur with the flag on.",
          "5.C10"),
  "C11": ("hook event log (T, choices, per-step byte ranges, body/tail boundary) cross-checked with O1 opcode counts; CLI --min/--max-opcodes outputs counted too",
-         "T, the number of choices/emissions, one-opcode-per-body-step, tail length <= 2T+1 and the total bound are checked per execution over an 18-point (min,max) grid incl. equal/inverted/zero, all mutator subsets, both entropy modes.",
+         "T, the number of choices/emissions, one-opcode-per-body-step, tail length <= 2T+1 and the total bound are checked per execution over an 18-point (min,max) grid incl. equal/inverted/zero, all mutator subsets safe and unsafe, both entropy modes, three builder-call orders, plus the deep-state block (tail bound with thousands of pending MARKs).",
          "5.C11"),
  "C12": ("union of decoded opcode sets over a fixed seed block (existential witnesses per (protocol, opcode))",
-         "Default-settings generations for seeds [0,N) per protocol (plus flags-on block for EXT*/buffer) must together contain every opcode of the CPython table with proto <= P, and framed and unframed outputs for P >= 4; evidence lists the witness seed and count per pair.",
+         "Default-settings generations for seeds [0,N) per protocol (plus flags-on block for EXT*/buffer) must together contain every opcode of the CPython table with proto <= P, and framed and unframed outputs for P >= 4; evidence lists the witness seed and count per pair. A single-threaded ascending-protocol prelude and a CLI layer (flag combinations in single and batch mode must keep the enabled opcodes alive) are included.",
          "5.C12"),
  "C13": ("byte comparison of CLI / batch / action wrapper / Python bindings against the library via an independent option mapping",
-         "The built binary, scripts/action-run.sh and the built _native extension are driven over an option matrix; every produced file / returned value is compared with library bytes for the independently mapped configuration; batch file sets, exit statuses and injected write faults are checked.",
+         "The built binary, scripts/action-run.sh and the built _native extension are driven over an option matrix; every produced file / returned value is compared with library bytes for the independently mapped configuration; batch file sets, exit statuses and injected write faults (before the first write, mid-batch, exactly 256 failures), overwriting of older longer files, odd cwd / locale / environment are checked.",
          "5.C13"),
  "C14": ("per-thread counting allocator: live heap before Generator::new vs after drop, reproducible x3; long reuse histories; equal live heap after 1/4/10 passes over a fixed cycle; mallinfo2 probe of the Python layer",
-         "Exact live-bytes/blocks deltas for every case of the full matrix under three lifecycles, alias-heavy steered pickles and long generate/reset histories; coverage shows how many analysed outputs contained aliasing insertions / identity cycles. Thorough adds LeakSanitizer and valgrind memcheck as second opinions.",
+         "Exact live-bytes/blocks deltas for every case of the full matrix under three lifecycles, alias-heavy and recipe-steered pickles (memo aliases, NaN containers), the deep-state block and long generate/reset histories; coverage shows how many analysed outputs contained aliasing insertions / identity cycles. Thorough adds LeakSanitizer and valgrind memcheck as second opinions.",
          "5.C14"),
  "C15": ("hook Draw/Mutated/Rewrite events at rate 0 and 1 + direct calls of every mutator on hostile entropy",
          "In-generation: at rate 0 no Mutated/Rewrite event may occur, at rate 1 every Draw must be followed by a Mutated from the first applicable mutator (all 128 subsets, permuted lists, both entropy modes incl. hostile doubles). Direct: every mutator method on harness-built sources (NaN/inf/negative/huge leading doubles, exhausted input).",
@@ -54,7 +54,7 @@ P = {
          "Every Mutator method is called over i32/i64 boundaries (exhaustive) plus samples, strings/bytes of 0..64 items incl. multi-byte, memo indices incl. 0 and usize::MAX, both entropy sources incl. exhausted input; TypeConfusion on snapshots cut from real generations and synthetic deltas for all 256 opcode bytes.",
          "5.C16"),
  "C17": ("offline checker: per-emission hook snapshots vs O2 run on output[..len]",
-         "After every emission the simulated stack depth, MARK positions, slot kinds and memo keys are compared with the reference machine over the safe matrix, exhaustive decision-tree prefixes and abstract-state BFS; evidence counts snapshots compared and distinct (state, opcode) transitions.",
+         "After every emission the simulated stack depth, MARK positions, slot kinds and memo keys are compared with the reference machine over the safe matrix, exhaustive decision-tree prefixes, abstract-state BFS, object-heavy recipes, 5000+ opcode pickles and the deep-state block; evidence counts snapshots compared and distinct (state, opcode) transitions.",
          "5.C17"),
  "C18": ("range predicates on direct EntropySource calls; all byte strings of length <= 2 exhaustively",
          "Every EntropySource method over an 18-point argument grid (all pairs) on all 65 793 byte strings of length <= 2 (exhaustive), random longer strings and PRNG states; fallbacks after exhaustion must be the documented fixed values and deterministic.",
